@@ -2,6 +2,7 @@
   C04 — No wedge. Property theorems only (helper lemmas: FileD/Lemmas/Pool.lean, Lemmas/Stream.lean).
 -/
 import FileD.Lemmas.Pool
+import FileD.Lemmas.PoolStd
 import FileD.Lemmas.Stream
 namespace FileD.PropsC04
 open FileD FileD.Pool
@@ -77,6 +78,51 @@ theorem lowmem_unfixed_wedged_forever (k : Nat) :
 
 example : TS.run (LM.step? (lmUnfixed 1)) (LM.init 2) lostWakeup = some wedged :=
   lostWakeup_reaches_wedged _ rfl
+
+/-- **C04, standard pool**: a reader parked in `Cond.Wait` is notified by the next heartbeat round
+    whenever `inUseEvents < capacity` — in every reachable state, any capacity, any number of readers. -/
+theorem std_waiter_resumes (cap n : Nat) (s : Std.St) (r x : Nat)
+    (hr : TS.Reachable Std.step? (Std.init cap n) s)
+    (hp : s.pcs[r]? = some (.parked x)) (hav : s.inUse < s.cap) :
+    ∃ s', TS.run Std.step? s [.hbRead, .hbFire] = some s' ∧ s'.pcs[r]? = some (.woken x)
+      ∧ s'.slots = s.slots ∧ s'.mu = s.mu := by
+  have inv := Std.inv_reachable cap n s hr
+  have hsw : 0 < s.sw := by
+    have := countP_pos_of_get Std.isSW s.pcs r _ hp rfl
+    have := inv.sw; simp only [Std.cnt] at this; omega
+  refine ⟨_, by simp only [TS.run, Std.step?, Option.bind]; rfl, ?_, ?_, ?_⟩ <;>
+    simp [hsw, hav, Std.broadcast, List.getElem?_map, hp, Std.wake]
+
+/-- …and once notified, with the mutex free, its next loop iteration takes the slot it waits for
+    if the event is there (it re-parks only when the slot was taken meanwhile). -/
+theorem std_woken_takes (s : Std.St) (r x : Nat) (sl : Std.Slot)
+    (hp : s.pcs[r]? = some (.woken x)) (hmu : s.mu = none) (hsl : s.slots[x]? = some sl)
+    (hfree : sl.f1 = true) (hb : x < s.backCtr) :
+    ∃ s', TS.run Std.step? s [.relock r, .unlock r, .swDec r, .cas r] = some s' ∧
+      s'.pcs[r]? = some (.taken x) := by
+  have hlt : r < s.pcs.length := Std.lt_of_get _ _ _ hp
+  let s1 := Std.setPc { s with mu := some r } r (.unlocking x)
+  let s2 := Std.setPc { s1 with mu := none } r (.postUnlock x)
+  let s3 := Std.setPc { s2 with sw := s2.sw - 1 } r (.try_ x 0 0)
+  let s4 := Std.setPc (Std.setSlot s3 x { sl with f1 := false, own := some r }) r (.taken x)
+  have e1 : Std.step? s (.relock r) = some s1 := by simp [Std.step?, hp, hmu, s1]
+  have e2 : Std.step? s1 (.unlock r) = some s2 := by simp [Std.step?, s1, s2, Std.setPc, hlt]
+  have e3 : Std.step? s2 (.swDec r) = some s3 := by simp [Std.step?, s1, s2, s3, Std.setPc, hlt]
+  have e4 : Std.step? s3 (.cas r) = some s4 := by
+    simp [Std.step?, s1, s2, s3, s4, Std.setPc, Std.setSlot, hlt, hsl, hfree, hb]
+  refine ⟨s4, by simp [TS.run, e1, e2, e3, e4], ?_⟩
+  simp [s4, s3, s2, s1, Std.setPc, Std.setSlot, hlt]
+
+/-- non-vacuity: capacity 1; reader 1 parks on slot 0 after losing the wake-up of reader 0's back -/
+def stdLost : List Std.Op :=
+  [.start 0, .tkt 0, .cas 0, .take 0, .iInc 0,
+   .start 1, .tkt 1, .cas 1, .cas 1, .cas 1, .cas 1, .cas 1, .cas 1, .cas 1, .cas 1, .cas 1,
+   .swInc 1, .lock 1,
+   .bstart 0, .btkt 0, .bcas 0, .bput 0, .bDec 0, .bBcast 0,
+   .waitEnq 1]
+
+example : ∃ s, TS.run Std.step? (Std.init 1 2) stdLost = some s ∧
+    s.pcs[1]? = some (.parked 0) ∧ s.inUse < s.cap := ⟨_, rfl, by decide⟩
 
 /-! ## streams (pipeline/stream.go, streamer.go) -/
 section streams
